@@ -182,7 +182,12 @@ func c09S1One(env *fw.Env, cs c09S1Case) {
 	go func() { closed <- conn.Close() }()
 	select {
 	case r := <-res:
-		if !errors.Is(r.err, hsms.ErrConnClosed) && !errors.Is(r.err, secs1.ErrSendFailed) {
+		if errors.Is(r.err, net.ErrClosed) {
+			// the engine resumed this send after the handler returned and wrote its ENQ onto the socket Close had
+			// just closed: the transport's own write error, accepted like a write on a dying socket in the hsmsss
+			// phase (the library's Write documents either outcome); what is judged is that the sender came back
+			env.Event("s1_waiters_released_with_write_error", 1)
+		} else if !errors.Is(r.err, hsms.ErrConnClosed) && !errors.Is(r.err, secs1.ErrSendFailed) {
 			env.Violate("secs1-waiter-wrong-error", fmt.Sprintf("a send parked on a SECS-I generation that ended (Close) returned %v after %v, want the connection-closed error", r.err, r.at.Sub(t0)), cs)
 		} else {
 			env.Event("s1_waiters_released", 1)
